@@ -3,7 +3,7 @@ import itertools
 import numpy as np
 import impl
 from gen import grid, data, unc, material
-from .common import arr, tolist, relerr
+from .common import arr, tolist, relerr, keyword_call_differs
 
 RK = ["S", "F", "FK", "DCS"]
 GK = ["g", "G", "GK"]
@@ -111,7 +111,10 @@ def evaluate_values(case):
         for Y in kinds:
             if Y == X:
                 continue
-            out, _ = conv(X, Y, xs, ys, None, kw)
+            out, _u = conv(X, Y, xs, ys, None, kw)
+            kf = keyword_call_differs(impl.obj("Converter"), f"Converter.{X}_to_{Y}", [xs, ys, None], kw, (out, _u))
+            if kf:
+                fails.append(kf)
             out = np.asarray(out, dtype=float)
             exp = mk(Y, x, under, kw)
             # finite wherever the exact value is representable (F/Q may honestly overflow for subnormal Q), and always at x <= 0
@@ -160,6 +163,9 @@ def evaluate_unc(case):
             if Y == X:
                 continue
             v0, u0 = conv(X, Y, x, y, dy, kw)
+            kf = keyword_call_differs(impl.obj("Converter"), f"Converter.{X}_to_{Y}", [x, y, dy], kw, (v0, u0))
+            if kf:
+                fails.append(kf)
             if u0 is None:
                 fails.append(f"{X}_to_{Y}: uncertainty output is None" + (" when no uncertainty is supplied" if dy is None else ""))
                 continue
